@@ -94,4 +94,47 @@ def Sep (P : Params) (vals : List (Option Int)) (k : Nat) : Prop :=
   P.keepLB = true → bestOf (vals.take k) ≠ k →
     P.km k ≠ P.km (bestOf (vals.take k)) ∧ P.ko k ≠ P.ko (bestOf (vals.take k))
 
+/-! ## any order of the calls of a save (see `Model/Checkpoint.lean`, `saveOrders`)
+
+`Shuffle as bs l`: the declarative notion the executable `shuffles` enumerates (`mem_shuffles_iff`).
+`Disk.Eqv`: two disks no controller can tell apart. `RunsAny` / `KilledAny` / `CrashesAny`: process lifetimes
+in which EVERY update may make its calls in any order the model admits (`updateOrders`) — the relational
+counterpart of `runLoop` / `crashSession` / `faulty`, which fix the pinned code's order. -/
+
+/-- `l` is an interleaving of `as` and `bs`: each keeps its own order. -/
+inductive Shuffle {α : Type} : List α → List α → List α → Prop
+  | nil : Shuffle [] [] []
+  | left {a : α} {as bs l : List α} : Shuffle as bs l → Shuffle (a :: as) bs (a :: l)
+  | right {b : α} {as bs l : List α} : Shuffle as bs l → Shuffle as (b :: bs) (b :: l)
+
+/-- Two disks a controller cannot tell apart: the same file under every path, the same history. -/
+def Disk.Eqv (d d' : Disk) : Prop := (∀ q, d.files.get q = d'.files.get q) ∧ d.csv = d'.csv
+
+/-- A process with `k` epochs cached, holding state `s`, on disk `d` completes some further updates — each one
+in ANY order the model admits (`updateOrders`: any interleaving of the save pipelines, clean-up in any
+order) — and then has `k'` epochs cached, holds `s'`, and the disk is `d'`. -/
+inductive RunsAny (Q : Quirks) (P : Params) (vals : List (Option Int)) (tr : Train) :
+    Nat → St → Disk → Nat → St → Disk → Prop
+  | refl (k : Nat) (s : St) (d : Disk) : RunsAny Q P vals tr k s d k s d
+  | step {k : Nat} {s : St} {d : Disk} {k' : Nat} {s' : St} {d' : Disk} (rm : List Path) (L : List FsOp) :
+      k < vals.length → L ∈ updateOrders Q P vals k d (tr.step (k + 1) s) rm →
+      RunsAny Q P vals tr (k + 1) (tr.step (k + 1) s) (exec d L) k' s' d' →
+      RunsAny Q P vals tr k s d k' s' d'
+
+/-- One process lifetime that ends in a kill: a new controller on `d`, load, some complete updates, then the
+first `i` calls of the next update (`torn`: call `i` is a `torch.save` that got half-way) — every update in
+any admitted order. -/
+inductive KilledAny (Q : Quirks) (P : Params) (vals : List (Option Int)) (tr : Train) (d : Disk) : Disk → Prop
+  | mk {k : Nat} {s : St} {k' : Nat} {s' : St} {d1 : Disk} (rm : List Path) (L : List FsOp) (i : Nat)
+      (torn : Bool) :
+      startSession P d = some (k, s) → RunsAny Q P vals tr k s d k' s' d1 → k' < vals.length →
+      L ∈ updateOrders Q P vals k' d1 (tr.step (k' + 1) s') rm →
+      KilledAny Q P vals tr d (if torn then tornDisk tearW d1 L i else exec d1 (L.take i))
+
+/-- Any number of such lifetimes, one after the other, each on the files the previous one left. -/
+inductive CrashesAny (Q : Quirks) (P : Params) (vals : List (Option Int)) (tr : Train) : Disk → Disk → Prop
+  | nil (d : Disk) : CrashesAny Q P vals tr d d
+  | cons {d d1 d2 : Disk} : KilledAny Q P vals tr d d1 → CrashesAny Q P vals tr d1 d2 →
+      CrashesAny Q P vals tr d d2
+
 end PdtVerif.Checkpoint
